@@ -186,6 +186,15 @@ Theorem c10_process_all_no_bug : forall (CC : Type) (cci : cc_iface CC) (strict 
     (vs_xe ti tm q).
 Proof. exact @process_all_x. Qed.
 
+(* (2) the receive loop, by induction over the fuel (= the inbox) *)
+Theorem c10_recv_loop_no_bug : forall (CC : Type) (cci : cc_iface CC) (strict : bool),
+  cc_total cci ->
+  forall (ti tm : Z) (q : Z -> Prop) (fuel : list msg) (s : vsock CC) (acc : on_ack_result),
+  (length (v_inbox s) < length fuel)%nat -> C06_RecProofs.acc_ok acc ->
+  rl_inv strict ti tm q (ar_acked_bytes acc) s ->
+  spx strict (recv_loop cci fuel s acc) (rl_post strict ti tm q s) (vs_xe ti tm q).
+Proof. exact @recv_loop_x. Qed.
+
 (* the sending half, with the state of error exits and exactly what a restart leaves behind *)
 Theorem c10_send_tx_queue_restart : forall (CC : Type) (cci : cc_iface CC) (strict : bool)
     (ti tm p : Z) (q : Z -> Prop) (s : vsock CC),
@@ -218,6 +227,23 @@ Theorem c10_poll_no_panic : forall (CC : Type) (cci : cc_iface CC) (strict : boo
   vs_x ti tm 0 qT s -> 0 <= v_env_now s <= SAMPLE_BOUND -> ef strict s ->
   let '(s', r) := poll cci s in ret_ok strict ti tm (envp s) s' r.
 Proof. exact @poll_x. Qed.
+
+(* the halving argument: a restart never widens max_ss - min_ss, and from a table without live probe
+   (q = no size) it needs max_ss - min_ss >= 1 and at least halves it *)
+Theorem c10_restart_halves : forall (CC : Type) (strict : bool) (ti tm : Z) (q : Z -> Prop)
+    (s0 s' : vsock CC),
+  ss_ok (v_ss s0) -> restart_R strict ti tm q s0 s' ->
+  0 <= dss (v_ss s') <= dss (v_ss s0) /\
+  ((forall z : Z, ~ q z) -> 1 <= dss (v_ss s0) /\ 2 * dss (v_ss s') <= dss (v_ss s0)).
+Proof. exact @restart_measure. Qed.
+
+Theorem c10_poll_loop_no_panic : forall (CC : Type) (cci : cc_iface CC) (strict : bool),
+  cc_total cci ->
+  forall (ti tm : Z) (fuel : nat) (s : vsock CC),
+  vs_x ti tm 0 qF s -> 0 <= v_env_now s <= SAMPLE_BOUND -> ef strict s ->
+  dss (v_ss s) < 2 ^ (Z.of_nat fuel - 1) -> (1 <= fuel)%nat ->
+  let '(s', r) := poll_loop cci fuel s in ret_ok strict ti tm (envp s) s' r.
+Proof. exact @poll_loop_x. Qed.
 
 Theorem c10_poll_result : forall (CC : Type) (strict : bool) (ti tm : Z) (e0 : Z * option Z)
     (s' : vsock CC) (r : poll_result),
@@ -332,10 +358,13 @@ Print Assumptions c10_closed_pending_regression.
 Print Assumptions c10_calc_pipe_never_panics.
 Print Assumptions c10_process_incoming_message_no_bug.
 Print Assumptions c10_process_all_no_bug.
+Print Assumptions c10_recv_loop_no_bug.
 Print Assumptions c10_send_tx_queue_restart.
 Print Assumptions c10_split_probe_facts.
 Print Assumptions c10_poll_body_no_panic.
 Print Assumptions c10_poll_no_panic.
+Print Assumptions c10_restart_halves.
+Print Assumptions c10_poll_loop_no_panic.
 Print Assumptions c10_poll_result.
 Print Assumptions c10_poll_body_strict_no_restart.
 Print Assumptions c10_vstep_inv.
